@@ -105,6 +105,7 @@ def run(ck, model_ok):
         for ci, (sizes, L, damage) in enumerate(cases):
             d = os.path.join(root, 'c')
             os.makedirs(d)
+            sl.NAME_SCHEME = names = ('plain', 'rev', 'mixed', 'plain')[ci % 4]
             t, cp, on_disk, good_chunks = build(d, sizes, L, damage)
             canon = sl.Canon(t, content_path=cp)
             # a third of the cases iterate a stream object that has been used before (handles of some files,
@@ -125,7 +126,8 @@ def run(ck, model_ok):
                 viol = ('raises', f'iter_pieces raised {got[1]}')
             else:
                 viol = spec_check(sizes, L, damage, contents, got[1])
-            case = {'sizes': list(sizes), 'L': L, 'damage': {str(k): v for k, v in damage.items()}, 'warm': [list(o) for o in warm]}
+            case = {'sizes': list(sizes), 'L': L, 'damage': {str(k): v for k, v in damage.items()}, 'warm': [list(o) for o in warm], 'names': names}
+            ck.count('names:' + names)
             if viol and not model_ok:
                 ck.fail('oracle', 'new:' + classify(sizes, damage, got, viol), case, 'spec_items', repr(got)[:600], viol[1])
             if model_ok:
@@ -134,18 +136,18 @@ def run(ck, model_ok):
                     req = ['stream.history', sl.disk_sexp(on_disk), sl.files_sexp(sizes), L, list(good_chunks), [list(o) for o in warm] + [['iter', -1]]]
                 else:
                     req = ['stream.iter_pieces', sl.disk_sexp(on_disk), sl.files_sexp(sizes), L]
-                pend.append((sizes, L, damage, got, viol, m.add(req), bool(warm), warm))
+                pend.append((sizes, L, damage, got, viol, m.add(req), bool(warm), warm, names))
             if ci < 3:
                 ck.sample({**case, 'items': repr(got)[:300]})
         if model_ok:
             res = m.run()
-            for (sizes, L, damage, got, viol, idx, is_warm, warm) in pend:
+            for (sizes, L, damage, got, viol, idx, is_warm, warm, names) in pend:
                 if is_warm:
                     mr = sl.model_history(res[idx])[-1][0]
                 else:
                     mr = sl.model_res(res[idx], lambda v: [sl.model_item(x) for x in v])
                 ck.ties += 1
-                case = {'sizes': list(sizes), 'L': L, 'damage': {str(k): v for k, v in damage.items()}, 'warm': [list(o) for o in warm]}
+                case = {'sizes': list(sizes), 'L': L, 'damage': {str(k): v for k, v in damage.items()}, 'warm': [list(o) for o in warm], 'names': names}
                 if mr != got:
                     ck.fail('tie', 'iter_pieces', case, repr(mr)[:600], repr(got)[:600], 'model and implementation disagree')
                 if viol:
@@ -153,17 +155,20 @@ def run(ck, model_ok):
                     if mr != got:
                         key = 'new:' + key
                     ck.fail('oracle', key, case, 'spec_items', repr(got)[:600], viol[1])
-    ck.notes += ['content on disk does not change during the iteration', 'plain path components']
+    sl.NAME_SCHEME = 'plain'
+    ck.notes += ['content on disk does not change during the iteration', 'plain path components; half of the cases list the files in an order that is not the path order']
 
 
 def replay(rp):
     c = rp['case']
     sizes, L = tuple(c['sizes']), c['L']
     damage = {int(k): v for k, v in c['damage'].items()}
+    sl.NAME_SCHEME = c.get('names', 'plain')
     with Scratch() as root:
         t, cp, on_disk, _ = build(root, sizes, L, damage)
         canon = sl.Canon(t, content_path=cp)
         got = sl.run_history_impl(t, canon, cp, [tuple(o) for o in c.get('warm', [])] + [('iter', -1)], cp)[-1][0]
+    sl.NAME_SCHEME = 'plain'
     if got[0] == 'err':
         return False, f'iter_pieces raised {got[1]}'
     v = spec_check(sizes, L, damage, sl.gen_content(sizes), got[1])
